@@ -56,7 +56,7 @@ macro_rules! auto_family {
         #[kani::stub(crate::ni::expand::aes128_expand_key, nk128)]
         #[kani::stub(crate::ni::expand::aes192_expand_key, nk192)]
         #[kani::stub(crate::ni::expand::aes256_expand_key, nk256)]
-        #[kani::unwind(800)]
+        #[kani::unwind(1000)]
         fn $conv() {
             let k: [u8; $kl] = kani::any();
             let key = Array(k);
@@ -91,7 +91,7 @@ macro_rules! auto_family {
         #[kani::stub(crate::ni::expand::aes128_expand_key, nk128)]
         #[kani::stub(crate::ni::expand::aes192_expand_key, nk192)]
         #[kani::stub(crate::ni::expand::aes256_expand_key, nk256)]
-        #[kani::unwind(800)]
+        #[kani::unwind(1000)]
         fn $convf() {
             let k: [u8; $kl] = kani::any();
             let key = Array(k);
@@ -133,7 +133,7 @@ macro_rules! auto_family {
         #[kani::stub(crate::ni::expand::aes128_expand_key, nk128)]
         #[kani::stub(crate::ni::expand::aes192_expand_key, nk192)]
         #[kani::stub(crate::ni::expand::aes256_expand_key, nk256)]
-        #[kani::unwind(800)]
+        #[kani::unwind(1000)]
         fn $convc() {
             let k: [u8; $kl] = kani::any();
             let key = Array(k);
